@@ -251,6 +251,35 @@ func unx(s string) string {
 	return string(b)
 }
 
+var (
+	reUnfinished = regexp.MustCompile(`^(\d+)\s+(.*) <unfinished \.\.\.>$`)
+	reEqPad      = regexp.MustCompile(`\)\s+= `)
+	reResumed    = regexp.MustCompile(`^(\d+)\s+<\.\.\. \w+ resumed>\s?(.*)$`)
+)
+
+// mergeResumed joins the two halves strace -f prints for a system call that was in progress while another
+// thread's call was reported ("write(7, ... <unfinished ...>" / "<... write resumed>) = 12"); the joined line
+// stands where the call completed. (Without this a busy machine makes calls disappear from the parsed trace.)
+func mergeResumed(lines []string) []string {
+	pending := map[string]string{}
+	out := make([]string, 0, len(lines))
+	for _, line := range lines {
+		if m := reUnfinished.FindStringSubmatch(line); m != nil {
+			pending[m[1]] = m[1] + " " + m[2]
+			continue
+		}
+		if m := reResumed.FindStringSubmatch(line); m != nil {
+			if pre, ok := pending[m[1]]; ok {
+				delete(pending, m[1])
+				out = append(out, pre+reEqPad.ReplaceAllString(m[2], ") = "))
+				continue
+			}
+		}
+		out = append(out, line)
+	}
+	return out
+}
+
 // parseStrace turns the child's syscalls on files of `dir` into model operations.
 func parseStrace(path, dir string) []any {
 	data, _ := os.ReadFile(path)
@@ -265,11 +294,12 @@ func parseStrace(path, dir string) []any {
 		}
 		return "", false
 	}
-	for _, line := range strings.Split(string(data), "\n") {
+	for _, line := range mergeResumed(strings.Split(string(data), "\n")) {
 		if m := reOpen.FindStringSubmatch(line); m != nil {
 			p, flags := unx(m[2]), m[3]
+			delete(fdName, m[4]) // the descriptor number now names this file, whatever it named before
 			if n, ok := inDir(p); ok && (strings.Contains(flags, "O_WRONLY") || strings.Contains(flags, "O_RDWR")) {
-				fdName[m[1]+":"+m[4]] = n
+				fdName[m[4]] = n // descriptors belong to the process: the Go runtime may move the writer to another thread between open and write
 				if strings.Contains(flags, "O_CREAT") || strings.Contains(flags, "O_TRUNC") {
 					// a fresh or truncated file under that name
 					ops = append(ops, map[string]any{"op": "createTemp", "name": hx(n)})
@@ -278,7 +308,7 @@ func parseStrace(path, dir string) []any {
 			continue
 		}
 		if m := reWrite.FindStringSubmatch(line); m != nil {
-			if n, ok := fdName[m[1]+":"+m[2]]; ok {
+			if n, ok := fdName[m[2]]; ok {
 				written, _ := strconv.Atoi(m[4])
 				if written > 0 {
 					b := unx(m[3])
